@@ -7,6 +7,7 @@ import Mathlib.Analysis.SpecialFunctions.Trigonometric.Inverse
 import Mathlib.Analysis.SpecialFunctions.Pow.Real
 import Mathlib.Analysis.SpecialFunctions.Log.Base
 import Mathlib.Algebra.Order.Floor.Ring
+import Mathlib.Analysis.SpecialFunctions.Complex.Arg
 
 open Classical in
 noncomputable instance instRealLikeReal : RealLike ℝ where
@@ -30,6 +31,7 @@ noncomputable instance instRealLikeReal : RealLike ℝ where
   sin := Real.sin
   cos := Real.cos
   arcsin := Real.arcsin
+  atan2 y x := Complex.arg ⟨x, y⟩
   abs x := |x|
   pow := fun a b => a ^ b
   pi := Real.pi
@@ -58,6 +60,7 @@ namespace RL
 @[simp] theorem sin_eq (a : ℝ) : RealLike.sin a = Real.sin a := rfl
 @[simp] theorem cos_eq (a : ℝ) : RealLike.cos a = Real.cos a := rfl
 @[simp] theorem arcsin_eq (a : ℝ) : RealLike.arcsin a = Real.arcsin a := rfl
+@[simp] theorem atan2_eq (y x : ℝ) : RealLike.atan2 y x = Complex.arg ⟨x, y⟩ := rfl
 @[simp] theorem abs_eq (a : ℝ) : RealLike.abs a = |a| := rfl
 @[simp] theorem pow_eq (a b : ℝ) : RealLike.pow a b = a ^ b := rfl
 @[simp] theorem pi_eq : (RealLike.pi : ℝ) = Real.pi := rfl
